@@ -56,7 +56,8 @@ class Delta(Native):
 class ADT(Native):
     """Abstract datetime denoting a fixed instant t (`inst` names the instant: the examined value or 'now')."""
 
-    def __init__(self, zone=None, coefs=None, inst="value", fold_ok=True):
+    def __init__(self, zone=None, coefs=None, inst="value", fold_ok=True, extreme=False):
+        self.extreme = extreme  # datetime.min / datetime.max: any shift leaves the representable range (OverflowError/ValueError)
         self.zone = zone  # Zone => aware; None => naive
         self.coefs = {k: v for k, v in (coefs or {}).items() if v}  # naive wall clock = t + sum(c * off(zone))
         self.inst = inst
@@ -67,6 +68,9 @@ class ADT(Native):
         return self.zone
 
     def astimezone(self, tz=None):
+        if self.extreme:
+            from ..absval import AbsRaise as _AR
+            raise _AR("OverflowError: date value out of range")
         if tz is None:
             # fixed-offset zone holding the local offset *at this instant*
             z = Zone(f"LOCALFIXED@{self.inst}")
@@ -85,6 +89,8 @@ class ADT(Native):
         return ADT(zone=z, coefs=self.coefs, inst=self.inst)
 
     def replace(self, **kw):
+        if self.extreme and set(kw) == {"tzinfo"}:
+            return ADT(None if kw["tzinfo"] is None else _zone_of(kw["tzinfo"]), self.coefs, self.inst, self.fold_ok, extreme=True)
         if set(kw) != {"tzinfo"}:
             raise AnalysisError("C18: replace() with fields other than tzinfo is outside the frame language")
         tz = kw["tzinfo"]
@@ -206,6 +212,19 @@ def rule_normaliser_frames(ctx, rid):
                f"{k} input -> {o.describe()}" if good else
                f"{k} input -> {o.describe()}: the result does not denote the input's instant on the UTC time line, so "
                f"comparisons depend on the process time zone", k)
+    # sentinel values at the edge of the range (datetime.min / datetime.max as 'always older' / 'always newer') cannot be
+    # shifted; the normaliser must hand back a naive value for them instead of raising (they order correctly as they are)
+    for k, v in (("naive-extreme", ADT(None, {"LOCAL": 1}, extreme=True)), ("aware-extreme", ADT(UTC, extreme=True))):
+        interp = Interp(m, ext=DT_EXT)
+        try:
+            o = interp.call_func(nf, None, [v], {})
+            good = isinstance(o, ADT) and o.zone is None
+            why = f"{k} input -> {'a naive value' if good else repr(o)}"
+        except AbsRaise as e:
+            good = False
+            why = (f"{k} input (datetime.min / datetime.max) -> raises {e.value!r}: a run with such a fresh_time or modified time "
+                   f"fails instead of comparing it")
+        ctx.ob(rid, f"{nf.short}/{k}", good, loc(nf), why, k)
     kinds = set(frames.values())
     ok = len(kinds) == 1 and all(isinstance(x, str) for x in kinds)
     ctx.ob(rid, f"{nf.short}/one-frame", ok, loc(nf),
